@@ -35,7 +35,9 @@ def main():
     payload = json.load(sys.stdin)
     try:
         mod = importlib.import_module(f'native.{prop}')
-        if 'finding' in payload:
+        if 'bounded' in payload:
+            res = mod.bounded(payload)
+        elif 'finding' in payload:
             res = mod.replay_finding(payload['finding'])
         else:
             payload['m'] = clean_model(payload.get('model'))
